@@ -384,7 +384,7 @@ def reext_layout(case, rng):
     m = {}
     linked = set(real_of(case['files'], p) for p, e in case['files'].items() if 'link' in e)
     for p, e in case['files'].items():
-        if 'link' in e or e.get('raw') or p in linked:      # a link's format comes from the link's own extension
+        if 'link' in e or e.get('raw') or p in linked or '.' not in posixpath.basename(p):      # a link's format comes from the link's own extension
             continue
         stem, ext = p.rsplit('.', 1)
         ok = all(ser.toml_ok(x) for x in e['docs'])
